@@ -33,12 +33,13 @@ type Ev struct {
 	Ev     string                 `json:"ev"` // reset | begin | unregister | register | read | write | garble | deliver | quiescent
 	Q      string                 `json:"q"`
 	Ids    []string               `json:"ids"`    // read: ids returned
+	Got    []map[string]string    `json:"got"`    // read: the full rows returned
 	Before map[string]string      `json:"before"` // write
 	After  map[string]string      `json:"after"`
 	K      int                    `json:"k"`    // garble: position in the undelivered log (1-based)
 	Bad    bool                   `json:"bad"`  // deliver: the event could not be decoded
 	Inv    []string               `json:"inv"`  // deliver: queries whose dependency was invalidated
-	Held   map[string][]string    `json:"held"` // quiescent
+	Held   map[string][]map[string]string `json:"held"` // quiescent: the full rows every query holds
 	Filter map[string]map[string]sqlzoo.FVal `json:"filter"` // reset: the filters of the scenario's queries
 	Rows   []map[string]string    `json:"rows"`   // reset: initial table
 }
@@ -54,7 +55,7 @@ type query struct {
 	gate    chan struct{}
 	parked  string // "" | "g1" | "g2"
 	running bool
-	held    []string
+	held    []map[string]string
 	runs    int
 	failed  string
 }
@@ -95,7 +96,10 @@ func (s *scenario) emit(e Ev) {
 		e.After = noRow
 	}
 	if e.Held == nil {
-		e.Held = map[string][]string{}
+		e.Held = map[string][]map[string]string{}
+	}
+	if e.Got == nil {
+		e.Got = []map[string]string{}
 	}
 	if e.Filter == nil {
 		e.Filter = map[string]map[string]sqlzoo.FVal{}
@@ -333,12 +337,15 @@ func runScenario(r *rand.Rand, scn int, nq, nwrites int, garble bool) ([]Ev, err
 		}
 		if q := byWhere(st.SQL, st.Args); q != nil {
 			ids := []string{}
+			got := []map[string]string{}
 			for _, row := range st.Hit {
-				ids = append(ids, sqlzoo.Abs(row)["id"])
+				a := sqlzoo.Abs(row[:len(sqlzoo.Def.Cols)])
+				ids = append(ids, a["id"])
+				got = append(got, a)
 			}
 			sort.Strings(ids)
 			s.mu.Lock()
-			s.emit(Ev{Ev: "read", Q: q.name, Ids: ids})
+			s.emit(Ev{Ev: "read", Q: q.name, Ids: ids, Got: got})
 			s.mu.Unlock()
 		}
 	}
@@ -370,8 +377,12 @@ func runScenario(r *rand.Rand, scn int, nq, nwrites int, garble bool) ([]Ev, err
 			if err := ldb.Query(ctx, &us, fc, nil); err != nil {
 				return nil, err
 			}
+			rows := []map[string]string{}
+			for _, u := range us {
+				rows = append(rows, sqlzoo.AbsUser(u))
+			}
 			s.mu.Lock()
-			q.held = sqlzoo.Ids(us)
+			q.held = rows
 			s.mu.Unlock()
 			return nil, nil
 		}
@@ -573,11 +584,11 @@ func runScenario(r *rand.Rand, scn int, nq, nwrites int, garble bool) ([]Ev, err
 		s.mu.Unlock()
 		return fail(fmt.Errorf("schedule ended with %d events undelivered", len(s.pend)))
 	}
-	held := map[string][]string{}
+	held := map[string][]map[string]string{}
 	for _, q := range s.queries {
-		held[q.name] = append([]string{}, q.held...)
+		held[q.name] = append([]map[string]string{}, q.held...)
 		if q.failed != "" {
-			held[q.name] = []string{"FAILED: " + q.failed}
+			held[q.name] = []map[string]string{{"id": "FAILED: " + q.failed}}
 		}
 	}
 	s.emit(Ev{Ev: "quiescent", Held: held})
